@@ -44,7 +44,7 @@ from .seams import CTX
 _INSTALLED = False
 _WATCHDOG = None
 _SANDBOX = None
-HANG_SECONDS = float(os.environ.get('DST_HANG_SECONDS', '6'))
+HANG_SECONDS = float(os.environ.get('DST_HANG_SECONDS', '20'))
 
 
 class Faults:
@@ -138,6 +138,9 @@ def _start_watchdog():
                 frame = sys._current_frames().get(cur.thread.ident)
                 S.hang_stack = ''.join(
                     traceback.format_stack(frame)[-8:]) if frame else ''
+                S.hang_frames = [(os.path.basename(f.filename), f.name)
+                                 for f in traceback.extract_stack(frame)
+                                 ] if frame else []
                 ctypes.pythonapi.PyThreadState_SetAsyncExc(
                     ctypes.c_ulong(cur.thread.ident),
                     ctypes.py_object(_sched.HangDetected))
@@ -170,6 +173,8 @@ def _enable_jump_budget(budget):
                 S.jumps = -10**12
                 S.hang_actor = me.name
                 S.hang_stack = ''.join(traceback.format_stack()[-8:-1])
+                S.hang_frames = [(os.path.basename(f.filename), f.name)
+                                 for f in traceback.extract_stack()[:-1]]
                 raise _sched.HangDetected('jump budget')
 
         mon.register_callback(TOOL, mon.events.JUMP, on_jump)
@@ -249,6 +254,7 @@ def execute(spec):
     S = _sched.Sched(choices, sc, switch_hook=seams.switch_hook)
     S.hang_actor = None
     S.hang_stack = None
+    S.hang_frames = None
     S.jump_budget = spec.get('jump_budget') or 0
     rec = record.Recorder(spec)
     mainproc = _sched.Proc(S.new_vpid(), 'main')
@@ -335,7 +341,7 @@ def execute(spec):
             except _sched.Deadlock:
                 res.outcome = 'deadlock'
             except _sched.StepCap:
-                res.outcome = 'stepcap'
+                res.outcome = 'wallcap' if S.wall_capped else 'stepcap'
             except _sched.HangDetected:
                 res.outcome = 'hang'
             except _sched.ActorKilled:
@@ -360,6 +366,7 @@ def execute(spec):
         atexit.register = real_register
     res.hang_actor = S.hang_actor
     res.hang_stack = S.hang_stack
+    res.hang_frames = S.hang_frames
 
     # -- what is on disk now (before interpreter-exit emulation) -------------------
     res.final_out = rec.read_out()
